@@ -83,7 +83,7 @@ def single_reports(tier):
     states = ["Idle", "Run", "Hold:0", "Jog", "Alarm", "Door:1", "Check", "Home", "Sleep"]
     for si, key in enumerate(("MPos", "WPos")):
         for ti, pos in enumerate(triples):
-            for fs in (None, ("500", "8000"), ("0", "0")):
+            for fs in (None, ("500", "8000"), ("0", "0"), ("900.5", "7500.0"), ("0.25", "12000.25")):
                 fields, _, exp, _ = grbl_status("Idle", key, pos, fs, None)
                 for k in (0, 2):
                     for dperm in itertools.permutations(decoys, k):
@@ -165,6 +165,7 @@ BASIS = [
     ("T:180.25 /200.0", {"T": 180.25}),
     ("<Idle|MPos:5.000,6.000,-7.000|FS:500,8000|WCO:0.000,0.000,0.000>", {"X": 5.0, "Y": 6.0, "Z": -7.0, "F": 500.0, "S": 8000.0}),
     ("<Run|WPos:-1.500,0.000,12.250|Bf:15,128>", {"X": -1.5, "Y": 0.0, "Z": 12.25}),
+    ("<Jog|MPos:3.000,2.000,1.000|FS:120.5,9000.75>", {"X": 3.0, "Y": 2.0, "Z": 1.0, "F": 120.5, "S": 9000.75}),
     ("<Alarm|FS:0,0|MPos:0.000,0.000,0.000|Pn:X>", {"F": 0.0, "S": 0.0, "X": 0.0, "Y": 0.0, "Z": 0.0}),
     ("[PRB:1.000,2.000,-3.500:1]", {"X": 1.0, "Y": 2.0, "Z": -3.5}),
     ("[PRB:0.000,0.000,0.000:0]", {"X": 0.0, "Y": 0.0, "Z": 0.0}),
@@ -201,8 +202,50 @@ def _work_hist(idx):
     return out, states
 
 
+def _work_stack(item):
+    """A report that arrives while the connection is being established (the answer to the probing command), through the real
+    printcore + PrintrunWriter stack under the deterministic scheduler of C15/C16: the readings must be there after connect()."""
+    from . import c16
+    from .. import engine_sched as ES
+    cfg, bound = item
+    c16.install_line_points()
+    found, n = [], [0]
+
+    def run_one(prefix):
+        ex, marks, leaked = c16.run_execution(cfg, prefix)
+        n[0] += 1
+        bad = False
+        got = marks.get("readings_after_connect")
+        if got is not None and ex.S.status == "done" and "connect_exc" not in marks:
+            for name, want in (("T", 21.5), ("B", 22.25)):
+                if got.get(name) != want:
+                    bad = True
+                    if not found:
+                        found.append(("report-during-connect:not-parsed", f"the device answered the probing G4 P0 with 'ok T:21.5 /0.0 B:22.25 /0.0' "
+                                      f"(greeting {cfg['greeting']!r}); after connect() get_parameter({name!r}) = {got.get(name)!r}", {"stack": cfg, "prefix": list(prefix)}))
+        return ex.S.trace, bad
+    ES.explore(run_one, bound, max_executions=3000)
+    return found, n[0]
+
+
+def stack_items(tier):
+    out = []
+    for greeting in (None, "start"):
+        for eager in (False, True):
+            cfg = {"statements": ["M105"], "behaviours": ["ok"], "regime": "Q", "greeting": greeting, "eager": eager, "line_points": True, "hs_report": True}
+            out.append((cfg, 0))
+            if not eager:
+                out.append(({**cfg, "line_points": False}, 1 if tier == "quick" else 2))
+    return out
+
+
 def run(tier, seed):
     res = Result("exploration")
+    nstack = 0
+    for found, n in pmap(_work_stack, stack_items(tier), chunksize=1):
+        nstack += n
+        for sig, msg, rp in found:
+            res.add(Violation(sig, msg, rp))
     singles = list(single_reports(tier))
     results = pmap(_work_single, singles, chunksize=200)
     for out in results:
@@ -220,14 +263,17 @@ def run(tier, seed):
     for f, _, _ in singles:
         fams[f] = fams.get(f, 0) + 1
     res.coverage = {
-        "evaluations": 9 * len(singles) + len(hists),
+        "evaluations": 9 * len(singles) + len(hists) + nstack,
+        "stack_executions": nstack,
         "distinct_nontrivial": len({t for _, t, _ in singles}) + len(states),
         "rule": ("reports generated from structured fields so the expected readings are known without parsing: Marlin position (X,Y,Z,E in all 24 orders + "
                  "Count block with other values), Marlin temperature (with/without leading ok, @ tail, T0 decoy), Grbl status (MPos|WPos, FS, multi-letter "
                  "decoys in every order), [PRB:..]; values from a list incl. -0.0, 0.001, integers; each report is delivered to the receive callback the writer "
                  "registers on printcore, on a fresh writer and after a prior report that set every letter, with CR LF / leading blank, and while an unsolicited ALARM:, error:, Error: "
                  "or !! line is pending, and with the library's loggers switched to DEBUG; plus every sequence of <= "
-                 f"{depth} lines from a {len(BASIS)}-line basis (12 reports + 7 lines that are not reports: alarm, errors, ok, start, [MSG:..]) against a dict model; distinct = distinct report texts + distinct model states"),
+                 f"{depth} lines from a {len(BASIS)}-line basis (12 reports + 7 lines that are not reports: alarm, errors, ok, start, [MSG:..]) against a dict model; distinct = distinct report texts + distinct model states; "
+                 "plus executions of the real printcore + PrintrunWriter stack (scheduler of C15/C16, default schedule and one/two deviations) in which the "
+                 "device answers the probing command with a report: the readings must be available after connect()"),
         "exhaustive": True,
         "exhaustive_note": "complete enumeration of the stated generator space; other report syntaxes are not covered",
         "families": fams, "histories": len(hists), "history_states": len(states),
@@ -240,6 +286,13 @@ def run(tier, seed):
 
 
 def replay(body):
+    if "stack" in body["replay"]:
+        from . import c16
+        c16.install_line_points()
+        ex, marks, _ = c16.run_execution(body["replay"]["stack"], body["replay"]["prefix"])
+        got = marks.get("readings_after_connect")
+        return {"readings_after_connect": got, "status": ex.S.status,
+                "violations": [] if got == {"T": 21.5, "B": 22.25} else [["report-during-connect:not-parsed", str(got)]]}
     w, cb = new_writer()
     for r in body["replay"]["reports"]:
         cb(r)
